@@ -117,11 +117,29 @@ func zzH_CLT() {
 				director = []string{"", "d"}[vChoose("dir", 2)]
 			}
 			n := len(rt.calls)
-			err := c.Call("S.M", nil, nil)
+			var err error
+			switch vChoose("form", vParam("clt.forms", 1)) {
+			case 0:
+				err = c.Call("S.M", nil, nil)
+			case 1:
+				err = c.CallWithContext(&zzCtx{done: make(chan struct{})}, "S.M", nil, nil)
+			case 2:
+				call := c.Go("S.M", nil, nil, make(chan *Call, 1))
+				err = call.Error
+			case 3:
+				call := c.RoundTrip(&Call{ServiceMethod: "S.M", Done: make(chan *Call, 1)})
+				err = call.Error
+			case 4:
+				_, err = c.NewStream("S.M")
+			}
 			if len(rt.calls) > n {
 				vAssert(len(rt.calls) == n+1, "one-roundtrip-per-call")
 				addr := rt.calls[n]
-				if director != "" {
+				if addr == "" {
+					// Go/RoundTrip/NewStream report a routing failure by handing the transport the empty
+					// address, which it refuses with ErrDial: that is not a routed call
+					vAssert(err != nil, "unrouted-call-fails-with-timeout")
+				} else if director != "" {
 					vAssert(addr == director, "director-result-wins")
 				} else {
 					vAssert(current[addr], "routed-to-current-target")
